@@ -397,3 +397,210 @@ impl VerifCodePointSet {
         VerifCodePointSet(unicode::add_icase_code_points(self.0.clone()))
     }
 }
+
+// ---------------------------------------------------------------------------
+// IR tracing: the tree after parsing and after every optimizer pass that
+// changed it, as JSON.
+// ---------------------------------------------------------------------------
+
+thread_local! {
+    static IR_SINK: RefCell<Option<Vec<(&'static str, String)>>> = const { RefCell::new(None) };
+}
+
+fn ir_list_json<T: core::fmt::Display>(s: &mut String, xs: &[T]) {
+    s.push('[');
+    for (i, x) in xs.iter().enumerate() {
+        if i > 0 {
+            s.push(',');
+        }
+        write!(s, "{}", x).unwrap();
+    }
+    s.push(']');
+}
+
+fn ir_quant_json(s: &mut String, q: &crate::ir::Quantifier) {
+    write!(
+        s,
+        "\"min\":{},\"max\":{},\"greedy\":{}",
+        q.min,
+        q.max.map(|m| m as i64).unwrap_or(-1),
+        q.greedy
+    )
+    .unwrap();
+}
+
+fn ir_node_json(n: &crate::ir::Node, s: &mut String) {
+    use crate::ir::{AnchorType, Node};
+    match n {
+        Node::Empty => s.push_str("{\"t\":\"empty\"}"),
+        Node::Goal => s.push_str("{\"t\":\"goal\"}"),
+        Node::Char { c } => write!(s, "{{\"t\":\"char\",\"c\":{}}}", c).unwrap(),
+        Node::ByteSequence(bytes) => {
+            s.push_str("{\"t\":\"bytes\",\"bs\":");
+            ir_list_json(s, bytes);
+            s.push('}');
+        }
+        Node::ByteSet(bytes) => {
+            s.push_str("{\"t\":\"byteset\",\"bs\":");
+            ir_list_json(s, bytes);
+            s.push('}');
+        }
+        Node::CharSet(chars) => {
+            s.push_str("{\"t\":\"charset\",\"cs\":");
+            ir_list_json(s, chars);
+            s.push('}');
+        }
+        Node::Cat(nodes) => {
+            s.push_str("{\"t\":\"cat\",\"xs\":[");
+            for (i, x) in nodes.iter().enumerate() {
+                if i > 0 {
+                    s.push(',');
+                }
+                ir_node_json(x, s);
+            }
+            s.push_str("]}");
+        }
+        Node::Alt(l, r) => {
+            s.push_str("{\"t\":\"alt\",\"xs\":[");
+            ir_node_json(l, s);
+            s.push(',');
+            ir_node_json(r, s);
+            s.push_str("]}");
+        }
+        Node::MatchAny => s.push_str("{\"t\":\"any\"}"),
+        Node::MatchAnyExceptLineTerminator => s.push_str("{\"t\":\"anynl\"}"),
+        Node::Anchor {
+            anchor_type,
+            multiline,
+        } => write!(
+            s,
+            "{{\"t\":\"anchor\",\"start\":{},\"ml\":{}}}",
+            matches!(anchor_type, AnchorType::StartOfLine),
+            multiline
+        )
+        .unwrap(),
+        Node::WordBoundary {
+            invert,
+            unicode_icase,
+        } => write!(
+            s,
+            "{{\"t\":\"wb\",\"neg\":{},\"ui\":{}}}",
+            invert, unicode_icase
+        )
+        .unwrap(),
+        Node::CaptureGroup { id, contents, name } => {
+            write!(
+                s,
+                "{{\"t\":\"grp\",\"id\":{},\"named\":{},\"b\":",
+                id,
+                name.is_some()
+            )
+            .unwrap();
+            ir_node_json(contents, s);
+            s.push('}');
+        }
+        Node::BackRef { group, icase } => {
+            write!(s, "{{\"t\":\"bref\",\"n\":{},\"ic\":{}}}", group, icase).unwrap()
+        }
+        Node::Bracket(bc) => {
+            write!(s, "{{\"t\":\"bracket\",\"neg\":{},\"ivs\":[", bc.invert).unwrap();
+            for (i, iv) in bc.cps.intervals().iter().enumerate() {
+                if i > 0 {
+                    s.push(',');
+                }
+                write!(s, "[{},{}]", iv.first, iv.last).unwrap();
+            }
+            s.push_str("]}");
+        }
+        Node::StringSet {
+            alternatives,
+            icase,
+        } => {
+            write!(s, "{{\"t\":\"strset\",\"ic\":{},\"alts\":[", icase).unwrap();
+            for (i, a) in alternatives.iter().enumerate() {
+                if i > 0 {
+                    s.push(',');
+                }
+                ir_list_json(s, a);
+            }
+            s.push_str("]}");
+        }
+        Node::LookaroundAssertion {
+            negate,
+            backwards,
+            start_group,
+            end_group,
+            contents,
+        } => {
+            write!(
+                s,
+                "{{\"t\":\"look\",\"neg\":{},\"behind\":{},\"sg\":{},\"eg\":{},\"b\":",
+                negate, backwards, start_group, end_group
+            )
+            .unwrap();
+            ir_node_json(contents, s);
+            s.push('}');
+        }
+        Node::Loop {
+            loopee,
+            quant,
+            enclosed_groups,
+        } => {
+            s.push_str("{\"t\":\"loop\",");
+            ir_quant_json(s, quant);
+            write!(
+                s,
+                ",\"glo\":{},\"ghi\":{},\"b\":",
+                enclosed_groups.start, enclosed_groups.end
+            )
+            .unwrap();
+            ir_node_json(loopee, s);
+            s.push('}');
+        }
+        Node::Loop1CharBody { loopee, quant } => {
+            s.push_str("{\"t\":\"loop1\",");
+            ir_quant_json(s, quant);
+            s.push_str(",\"b\":");
+            ir_node_json(loopee, s);
+            s.push('}');
+        }
+    }
+}
+
+/// Called by the optimizer after each pass: records the tree if it changed.
+pub(crate) fn ir_pass(name: &'static str, r: &crate::ir::Regex) {
+    IR_SINK.with(|k| {
+        if let Some(stages) = k.borrow_mut().as_mut() {
+            let mut s = String::new();
+            ir_node_json(&r.node, &mut s);
+            if stages.last().map(|l| l.1 != s).unwrap_or(true) {
+                stages.push((name, s));
+            }
+        }
+    });
+}
+
+/// Parse `pattern` and (unless `flags.no_opt`) optimize it, returning the IR after
+/// parsing and after every optimizer pass that changed it:
+/// `{"stages":[{"pass":"parse","ir":..},{"pass":"decat","ir":..},..]}`.
+pub fn ir_trace_json<I>(pattern: I, flags: crate::api::Flags) -> Result<String, crate::Error>
+where
+    I: Iterator<Item = u32> + Clone,
+{
+    let mut ire = crate::parse::try_parse(pattern, flags)?;
+    IR_SINK.with(|k| *k.borrow_mut() = Some(Vec::new()));
+    ir_pass("parse", &ire);
+    if !flags.no_opt {
+        crate::optimizer::optimize(&mut ire);
+    }
+    let stages = IR_SINK.with(|k| k.borrow_mut().take()).unwrap_or_default();
+    let mut s = String::from("{\"stages\":[");
+    for (i, (name, ir)) in stages.iter().enumerate() {
+        if i > 0 {
+            s.push(',');
+        }
+        write!(s, "{{\"pass\":\"{}\",\"ir\":{}}}", name, ir).unwrap();
+    }
+    s.push_str("]}");
+    Ok(s)
+}
